@@ -41,6 +41,12 @@ Theorem C03_deciding_cases_are_in_domain : forall p ops, in_domain p ops = true 
 Proof. exact in_domain_history. Qed.
 Print Assumptions C03_deciding_cases_are_in_domain.
 
+(* the recogniser is exact: it accepts precisely the packets that encode a logical field, and returns that field
+   (a parser that inverts the ISO serialiser) *)
+Theorem C03_recogniser_exact : forall p hdr l pay, reprb p = Some (hdr, l, pay) <-> repr p l hdr pay.
+Proof. exact reprb_iff. Qed.
+Print Assumptions C03_recogniser_exact.
+
 (* ... and after every call of the history, not only at its end *)
 Theorem C03_history_every_prefix : forall h1 h2 p l hdr pay, repr p l hdr pay -> Forall op_ok (h1 ++ h2) ->
   exists l', hist_rel l h1 l' /\ repr (AF.run p h1) l' hdr pay.
